@@ -687,7 +687,9 @@ var (
 	vSeqVals  = []uint64{0, 1, 255, 65535, 65536, 1<<32 - 1, 1 << 32, 1<<63 - 1, 1 << 63, 1<<64 - 1}
 	vU32s     = []uint32{0, 1, 255, 256, 65535, 65536, 1<<31 - 1, 1 << 31, 1<<32 - 2, 1<<32 - 1}
 	vTargets  = []uint32{0, 1, 2, 255, 65535}
-	vModules  = []string{"", "TokenBridge", "NFTBridge", "Core", strings.Repeat("M", 31), "TokenBridge" + strings.Repeat("x", 21), strings.Repeat("m", 33), strings.Repeat("Q", 64), "\x00TokenBridge", "tokenbridge"}
+	vModules  = []string{"", "TokenBridge", "NFTBridge", "Core", strings.Repeat("M", 31), "TokenBridge" + strings.Repeat("x", 21), strings.Repeat("m", 33), strings.Repeat("Q", 64), "\x00TokenBridge", "tokenbridge",
+		// multi-byte characters: the limit is in BYTES (the wire field is 32 bytes), not in characters
+		strings.Repeat("\u00e9", 16), strings.Repeat("\u00e9", 17), "TokenBridge-" + strings.Repeat("\u00e9", 11), strings.Repeat("\u6a4b", 11), strings.Repeat("\u6a4b", 10) + "ab", "\xff\xfe" + strings.Repeat("z", 31)}
 	vGovAddr  = vaa.Address{0, 0, 0, 0, 0, 0, 0, 0, 0, 0, 0, 0, 0, 0, 0, 0, 0, 0, 0, 0, 0, 0, 0, 0, 0, 0, 0, 0, 0, 0, 0, 4}
 	vGovAddr2 = vaa.Address{0xde, 0xad, 0xbe, 0xef, 5, 6, 7, 8, 9, 10, 11, 12, 13, 14, 15, 16, 17, 18, 19, 20, 21, 22, 23, 24, 25, 26, 27, 28, 29, 30, 31, 0xff}
 )
